@@ -9,6 +9,7 @@ import (
 	"reflect"
 	"runtime/debug"
 	"sort"
+	"strconv"
 	"unicode"
 	"unicode/utf8"
 )
@@ -775,6 +776,22 @@ func (c GeneratorContext) addLocalVar(name string) (GeneratorContext, error) {
 	return GeneratorContext{am: newAm, cm: c.cm}, nil
 }
 
+// addPendingArgs returns a context in which n more stack slots are occupied by
+// already evaluated call arguments. A local declared inside a later argument
+// is stored behind these slots, so its index needs to take them into account.
+// The slot names contain a quote and therefore can not collide with an identifier.
+func (c GeneratorContext) addPendingArgs(n int) GeneratorContext {
+	if n == 0 {
+		return c
+	}
+	am := make(argsList, len(c.am), len(c.am)+n)
+	copy(am, c.am)
+	for i := 0; i < n; i++ {
+		am = append(am, "'"+strconv.Itoa(len(am)))
+	}
+	return GeneratorContext{am: am, cm: c.cm}
+}
+
 type Func[V any] func(Stack[V]) (V, error)
 
 func (f Func[V]) Eval(args ...V) (V, error) {
@@ -1130,7 +1147,7 @@ func (g *FunctionGenerator[V]) GenerateFunc(ast parser2.AST, gc GeneratorContext
 				if fun.argsNumberNotMatching(len(a.Args)) {
 					return nil, false, id.Error(fun.argsNumberNotMatchingError(id.Name, len(a.Args)))
 				}
-				argsFuncList, pure, err := g.genFuncList(a.Args, gc)
+				argsFuncList, pure, err := g.genArgList(a.Args, gc, 0)
 				if err != nil {
 					return nil, false, err
 				}
@@ -1150,7 +1167,7 @@ func (g *FunctionGenerator[V]) GenerateFunc(ast parser2.AST, gc GeneratorContext
 		if err != nil {
 			return nil, false, g.generateStaticFunctionDocu(err)
 		}
-		argsFuncList, aPure, err := g.genFuncList(a.Args, gc)
+		argsFuncList, aPure, err := g.genArgList(a.Args, gc, 0)
 		if err != nil {
 			return nil, false, err
 		}
@@ -1181,7 +1198,13 @@ func (g *FunctionGenerator[V]) GenerateFunc(ast parser2.AST, gc GeneratorContext
 			return nil, false, err
 		}
 		name := a.Name
-		argsFuncList, aPure, err := g.genFuncList(a.Args, gc)
+		// If the name is a map field storing a closure, only the arguments are
+		// pushed. If it is a method, the value is pushed in front of them.
+		argsFuncList, aPure, err := g.genArgList(a.Args, gc, 0)
+		if err != nil {
+			return nil, false, err
+		}
+		methodArgsFuncList, _, err := g.genArgList(a.Args, gc, 1)
 		if err != nil {
 			return nil, false, err
 		}
@@ -1222,7 +1245,7 @@ func (g *FunctionGenerator[V]) GenerateFunc(ast parser2.AST, gc GeneratorContext
 					return zero, a.Errorf("wrong number of arguments at call of \"%s\", required %d, found %d", me.Description.String(name), me.Args-1, len(argsFuncList))
 				}
 				st.Push(value)
-				for _, arg := range argsFuncList {
+				for _, arg := range methodArgsFuncList {
 					v, err := arg(st, cs)
 					if err != nil {
 						return zero, a.EnhanceErrorf(err, "error in arguments in method call to %s", name)
@@ -1285,6 +1308,24 @@ func (g *FunctionGenerator[V]) createClosureLiteralFunc(a *parser2.ClosureLitera
 		}
 		return closure, nil
 	}, pure, nil
+}
+
+// genArgList creates the functions for call arguments which are pushed to the
+// stack one after the other. If argument i is evaluated, there are already
+// pending+i values pushed to the stack.
+func (g *FunctionGenerator[V]) genArgList(a []parser2.AST, gc GeneratorContext, pending int) ([]ParserFunc[V], bool, error) {
+	args := make([]ParserFunc[V], len(a))
+	pure := true
+	for i, arg := range a {
+		var err error
+		var p bool
+		args[i], p, err = g.GenerateFunc(arg, gc.addPendingArgs(pending+i))
+		if err != nil {
+			return nil, false, err
+		}
+		pure = pure && p
+	}
+	return args, pure, nil
 }
 
 func (g *FunctionGenerator[V]) genFuncList(a []parser2.AST, gc GeneratorContext) ([]ParserFunc[V], bool, error) {
